@@ -6,6 +6,14 @@
 //   ts_bytes   arbitrary header bytes (byte-level; also the libFuzzer entry)
 // Oracle: list model for the operations, reference parser (two-sided where the grammar leaves
 // room) for the headers, ToHeader/FromHeader round trip, receiver immutability.
+//
+// The file is compiled twice.  As it is: the pinned configuration (regex validators).  Through
+// c14_noregex.cc, which forces OPENTELEMETRY_HAVE_WORKING_REGEX to 0 before anything of the
+// repository is included and defines C14_NOREGEX: the hand-written IsValidKeyNonRegEx /
+// IsValidValueNonRegEx (dead code on this platform, but anchored by the property) behind the SAME
+// generators and oracles; the targets are then called ts_ops_noregex / ts_header_noregex /
+// ts_bytes_noregex and live in a binary of their own (TraceState is header-only: two variants of
+// its inline functions in one program would break the one-definition rule).
 #include <algorithm>
 #include <string>
 #include <utility>
@@ -13,6 +21,20 @@
 
 #include "opentelemetry/trace/trace_state.h"
 #include "vh.h"
+
+#ifdef C14_NOREGEX
+static_assert(OPENTELEMETRY_HAVE_WORKING_REGEX == 0,
+              "c14_noregex.cc must force the non-regex validators before trace_state.h is seen");
+#  define C14_NAME(n) n##_noregex
+#  define C14_VARIANT                                                                             \
+    "[non-regex validators: trace_state.h compiled with OPENTELEMETRY_HAVE_WORKING_REGEX forced " \
+    "to 0] "
+#else
+#  define C14_NAME(n) n
+#  define C14_VARIANT ""
+#endif
+#define C14_TARGET_(N, S, R) VH_TARGET(N, S, R)
+#define C14_TARGET(N, S, R) C14_TARGET_(C14_NAME(N), S, C14_VARIANT R)
 
 const char *vh_property_id = "C14";
 
@@ -107,6 +129,104 @@ bool has_dup(const List &l)
   return false;
 }
 
+size_t count_key(const List &l, const std::string &k)
+{
+  return static_cast<size_t>(
+      std::count_if(l.begin(), l.end(), [&](const std::pair<std::string, std::string> &e) { return e.first == k; }));
+}
+
+// The statement does not say what becomes of a key that is repeated in a parsed header (and the
+// W3C text allows one entry per key only), so wherever an expected list `l` holds a repeated key
+// every reasonable treatment is accepted: all members kept as they are, the first / the last
+// member of each key kept, or the first member updated in place with the last value.  What is NOT
+// accepted: losing a key altogether, reordering, a truncated ("partial") list.  Refusing the whole
+// header (empty state) is decided by the callers.
+std::vector<List> dup_candidates(const List &l)
+{
+  List first, last, inplace;
+  for (size_t i = 0; i < l.size(); ++i)
+  {
+    bool earlier = false, later = false;
+    std::string last_value = l[i].second;
+    for (size_t j = 0; j < l.size(); ++j)
+      if (j != i && l[j].first == l[i].first)
+      {
+        (j < i ? earlier : later) = true;
+        if (j > i)
+          last_value = l[j].second;
+      }
+    if (!earlier)
+    {
+      first.push_back(l[i]);
+      inplace.emplace_back(l[i].first, last_value);
+    }
+    if (!later)
+      last.push_back(l[i]);
+  }
+  return {l, first, last, inplace};
+}
+
+// got == expect; where expect holds repeated keys: got is one of the accepted treatments
+bool same_modulo_repeats(const List &got, const List &expect)
+{
+  if (got == expect)
+    return true;
+  if (!has_dup(expect))
+    return false;
+  for (const List &cand : dup_candidates(expect))
+    if (got == cand)
+      return true;
+  return false;
+}
+
+// ---------------------------------------------------------------- findings of the non-regex variant
+// Two shapes on which the hand-written validators (non-regex TU only) disagreed with the grammar;
+// both FIXED in /repo (cd0d86a, de5422e; regression replays replays/C14/C14-noregex-*.json).
+// Were one ever listed as an open finding again, the generators of the non-regex variant re-shape such a key /
+// value into one that is invalid for both variants, and byte-level inputs that contain the shape
+// are not executed.  The regex variant is never re-shaped.
+const bool kHoldBack_noregex_key   = false;
+const bool kHoldBack_noregex_value = false;
+const char kNoRegexKey[]           = "C14-noregex-key";
+const char kNoRegexValue[]         = "C14-noregex-value";
+
+bool avoid_noregex_key()
+{
+#ifdef C14_NOREGEX
+  return kHoldBack_noregex_key || vh::excluded(kNoRegexKey);
+#else
+  return false;
+#endif
+}
+bool avoid_noregex_value()
+{
+#ifdef C14_NOREGEX
+  return kHoldBack_noregex_value || vh::excluded(kNoRegexValue);
+#else
+  return false;
+#endif
+}
+// C14-noregex-key: exactly one '@'; as a whole the key has the right alphabet, at most 256
+// characters and a lowercase letter or digit in front - but the tenant part is longer than 241, or
+// the system part is empty, longer than 14 or does not begin with a lowercase letter or digit
+bool noregex_key_shape(const std::string &k)
+{
+  size_t at = k.find('@');
+  if (at == std::string::npos || k.find('@', at + 1) != std::string::npos)
+    return false;
+  if (k.size() > 256 || !(lc(k[0]) || dg(k[0])))
+    return false;
+  for (char ch : k)
+    if (!key_char(ch) && ch != '@')
+      return false;
+  return !key_valid(k, true);
+}
+// C14-noregex-value: a value that is valid apart from ending in a blank
+bool noregex_value_shape(const std::string &v)
+{
+  return !v.empty() && v.back() == ' ' && !value_valid(v) && value_valid(v.substr(0, v.size() - 1) + "x");
+}
+
 // every TraceState the API hands out must satisfy this (statement, first sentence)
 void check_wellformed(vh::Case &c, const List &l, const char *what)
 {
@@ -167,9 +287,9 @@ struct GenKey
   const char *cls;
 };
 
-GenKey gen_key(vh::Reader &rd)
+GenKey gen_key_raw(vh::Reader &rd)
 {
-  switch (rd.weighted({50, 6, 6, 5, 5, 4, 3, 3, 3, 3, 3, 3, 3, 3}))
+  switch (rd.weighted({50, 6, 6, 5, 5, 4, 3, 3, 3, 3, 3, 3, 3, 3, 3}))
   {
     case 0:
       return {pool_key(rd), "pool"};
@@ -202,9 +322,28 @@ GenKey gen_key(vh::Reader &rd)
       return {gen_ident(rd, 3, true) + "@" + gen_ident(rd, 15, true), "inv-system15"};
     case 12:
       return {rd.coin() ? "@" + gen_ident(rd, 3, true) : gen_ident(rd, 3, true) + "@", "inv-at-edge"};
-    default:
+    case 13:
       return {"_" + gen_ident(rd, rd.below(4), false), "inv-first"};
+    default:
+    {
+      // the system id has a first-character rule of its own
+      static const char first[] = "_-*/";
+      return {gen_ident(rd, 1 + rd.below(4), true) + "@" + first[rd.below(4)] + gen_ident(rd, rd.below(4), false),
+              "inv-system-first"};
+    }
   }
+}
+
+GenKey gen_key(vh::Reader &rd)
+{
+  GenKey k = gen_key_raw(rd);
+  if (noregex_key_shape(k.key) && avoid_noregex_key())
+  {
+    vh::count_excluded(kNoRegexKey);
+    k.key = "@" + k.key;  // still invalid, for a reason both variants know
+    k.cls = "inv-reshaped(noregex-key)";
+  }
+  return k;
 }
 
 struct GenVal
@@ -231,7 +370,7 @@ std::string printable(vh::Reader &rd, size_t len)
   return s;
 }
 
-GenVal gen_val(vh::Reader &rd)
+GenVal gen_val_raw(vh::Reader &rd)
 {
   switch (rd.weighted({50, 10, 6, 5, 5, 5, 5, 5, 4}))
   {
@@ -259,6 +398,18 @@ GenVal gen_val(vh::Reader &rd)
     default:
       return {printable(rd, 1 + rd.below(3)) + "  " + printable(rd, 1 + rd.below(3)), "inner-blank"};
   }
+}
+
+GenVal gen_val(vh::Reader &rd)
+{
+  GenVal v = gen_val_raw(rd);
+  if (noregex_value_shape(v.val) && avoid_noregex_value())
+  {
+    vh::count_excluded(kNoRegexValue);
+    v.val.back() = '\t';  // still invalid, for a reason both variants know
+    v.cls        = "inv-reshaped(noregex-value)";
+  }
+  return v;
 }
 
 // pool keys map to 0..39 (a..f, k6..k39); anything else to slot 63
@@ -289,13 +440,44 @@ List gen_valid_list(vh::Reader &rd, size_t n)
   return l;
 }
 
+// a strictly valid key / value that is not the everyday "pool key = digit" member
+GenKey gen_boundary_key(vh::Reader &rd)
+{
+  switch (rd.weighted({2, 3, 2, 3}))
+  {
+    case 0:
+      return {gen_ident(rd, 1 + rd.below(12), true), "simple"};
+    case 1:
+      return {gen_ident(rd, 256, true), "simple256"};
+    case 2:
+      return {gen_ident(rd, 1 + rd.below(8), true) + "@" + gen_ident(rd, 1 + rd.below(6), true), "tenant"};
+    default:
+      return {gen_ident(rd, 241, true) + "@" + gen_ident(rd, 14, true), "tenant241+14"};
+  }
+}
+GenVal gen_boundary_val(vh::Reader &rd)
+{
+  switch (rd.weighted({2, 3, 1, 1}))
+  {
+    case 0:
+      return {printable(rd, 1 + rd.below(20)), "printable"};
+    case 1:
+      return {printable(rd, 256), "v256"};
+    case 2:
+      return {" " + printable(rd, 1 + rd.below(5)), "leading-blank"};
+    default:
+      return {printable(rd, 1 + rd.below(3)) + "  " + printable(rd, 1 + rd.below(3)), "inner-blank"};
+  }
+}
+
 }  // namespace
 
 // ================================================================================================
-VH_TARGET(ts_ops, 3,
-          "a history is non-trivial when it contains a Set on a key already present, or any "
-          "operation on a list holding 31/32 members, or an invalid key/value; distinct = "
-          "distinct (start list, operation sequence) text")
+C14_TARGET(ts_ops, 3,
+           "a history is non-trivial when it contains a Set on a key already present, or any "
+           "operation on a list holding 31/32 members, or an invalid key/value, or an operation on a "
+           "receiver that holds a repeated key (parsed from a header); distinct = distinct (start "
+           "list, operation sequence) text")
 {
   vh::Reader &rd = c.rd;
   size_t n0      = 0;
@@ -315,16 +497,90 @@ VH_TARGET(ts_ops, 3,
       break;
   }
   List model = gen_valid_list(rd, n0);
-  auto ts    = trace::TraceState::FromHeader(header_of(model));
+  // start-list class: plain pool members / some members of boundary length and non-pool shape /
+  // one key repeated (FromHeader may keep both members: the only way to a receiver with a repeated key)
+  switch (model.empty() ? 0 : rd.weighted({12, 4, 4}))
+  {
+    case 0:
+      break;
+    case 1:
+    {
+      unsigned cnt = 1 + rd.below(3);
+      for (unsigned j = 0; j < cnt; ++j)
+      {
+        size_t at = rd.below(static_cast<uint32_t>(model.size()));
+        if (rd.chance(70))
+        {
+          GenKey k = gen_boundary_key(rd);
+          if (count_key(model, k.key) == 0)
+            model[at].first = k.key;
+        }
+        if (rd.chance(70))
+          model[at].second = gen_boundary_val(rd).val;
+      }
+      c.tag("start-boundary-members");
+      break;
+    }
+    default:
+    {
+      size_t from = rd.below(static_cast<uint32_t>(model.size()));
+      if (model.size() == 1)
+        model.emplace_back(model[0].first, std::to_string(rd.below(10)));
+      else
+      {
+        size_t to = rd.below(static_cast<uint32_t>(model.size() - 1));
+        if (to >= from)
+          ++to;
+        model[to].first = model[from].first;
+      }
+      c.tag("start-repeated-key");
+      break;
+    }
+  }
+  auto ts = trace::TraceState::FromHeader(header_of(model));
   c.note("start=" + show_list(model) + "\n");
   {
     List got = entries(*ts);
-    VH_CHECK(c, got == model, "FromHeader of a valid list of " << model.size() << " members gave "
-                                                              << show_list(got));
+    check_wellformed(c, got, "result of FromHeader");
+    if (has_dup(model))
+    {
+      // both members kept, one of them kept, or the header refused; what was obtained is the model
+      VH_CHECK(c, got.empty() || same_modulo_repeats(got, model),
+               "FromHeader of a valid list with one repeated key gave " << show_list(got) << " for "
+                                                                        << show_list(model));
+      model = got;
+      if (has_dup(model))
+        c.tag("start-repeated-key-kept");
+    }
+    else
+      VH_CHECK(c, got == model, "FromHeader of a valid list of " << model.size() << " members gave "
+                                                                << show_list(got));
   }
   // earlier states stay alive and are re-checked at the end (immutability of every receiver)
   std::vector<std::pair<opentelemetry::nostd::shared_ptr<trace::TraceState>, List>> history;
   history.emplace_back(ts, model);
+
+  // a key of the receiver; when the receiver holds a repeated key, that one half of the time
+  auto pick_present = [&rd](const List &m) {
+    size_t idx = rd.below(static_cast<uint32_t>(m.size()));
+    if (has_dup(m) && rd.chance(50))
+      for (size_t i = 0; i < m.size(); ++i)
+        if (count_key(m, m[i].first) > 1)
+        {
+          idx = i;
+          break;
+        }
+    return idx;
+  };
+  using View = std::pair<nostd::string_view, nostd::string_view>;
+  auto views_of = [](const trace::TraceState &t) {
+    std::vector<View> v;
+    t.GetAllEntries([&v](nostd::string_view k, nostd::string_view val) {
+      v.emplace_back(k, val);
+      return true;
+    });
+    return v;
+  };
 
   unsigned nops = 1 + rd.below(12);
   for (unsigned op = 0; op < nops && (op == 0 || !rd.exhausted()); ++op)
@@ -337,31 +593,63 @@ VH_TARGET(ts_ops, 3,
     List m           = history[ri].second;
     std::string before = recv->ToHeader();
     bool near_limit  = m.size() >= 31;
+    bool repeats     = has_dup(m);
+    if (repeats)
+    {
+      c.tag("op-on-receiver-with-repeated-key");
+      c.nontrivial = true;
+    }
     unsigned kind    = static_cast<unsigned>(rd.weighted({6, 2, 2}));
     if (kind == 0)
     {
       GenKey k = gen_key(rd);
       GenVal v = gen_val(rd);
       // prefer keys that are present
+      bool alias_key = false, alias_val = false;
+      size_t key_at = 0, val_at = 0;
       if (!m.empty() && rd.chance(35))
       {
-        k.key = m[rd.below(static_cast<uint32_t>(m.size()))].first;
-        k.cls = "present";
+        key_at = pick_present(m);
+        k.key  = m[key_at].first;
+        k.cls  = "present";
+        // sometimes the arguments are views into the receiver's own entries (GetAllEntries)
+        if (rd.chance(25))
+        {
+          alias_key = true;
+          if (rd.coin())
+          {
+            alias_val = true;
+            val_at    = rd.below(static_cast<uint32_t>(m.size()));
+            v.val     = m[val_at].second;
+            v.cls     = "aliases-receiver";
+          }
+        }
       }
       // short-lived, non NUL-terminated caller storage
       std::string kbuf = k.key + "#", vbuf = v.val + "#";
-      auto res = recv->Set(nostd::string_view(kbuf.data(), k.key.size()),
-                           nostd::string_view(vbuf.data(), v.val.size()));
+      nostd::string_view kview(kbuf.data(), k.key.size()), vview(vbuf.data(), v.val.size());
+      std::vector<View> own = views_of(*recv);
+      if (alias_key && own.size() == m.size())
+      {
+        kview = own[key_at].first;
+        c.tag("set-key-aliases-receiver");
+        if (alias_val)
+          vview = own[val_at].second;
+      }
+      auto res = recv->Set(kview, vview);
       std::fill(kbuf.begin(), kbuf.end(), '\xdd');
       std::fill(vbuf.begin(), vbuf.end(), '\xdd');
       c.note("Set#" + std::to_string(ri) + "(" + vh::show(k.key.substr(0, 24)) + "[" + k.cls + "," +
-             std::to_string(k.key.size()) + "]," + vh::show(v.val.substr(0, 24)) + "[" + v.cls + "," +
-             std::to_string(v.val.size()) + "])\n");
+             std::to_string(k.key.size()) + (alias_key ? ",alias" : "") + "]," + vh::show(v.val.substr(0, 24)) +
+             "[" + v.cls + "," + std::to_string(v.val.size()) + "])\n");
       c.tag(std::string("set-key-") + k.cls);
       c.tag(std::string("set-val-") + v.cls);
       List got = entries(*res);
       check_wellformed(c, got, "result of Set");
-      VH_CHECK(c, !has_dup(got), "Set produced a second member with the same key: " << show_list(got));
+      // never a second member with the GIVEN key; members the receiver already held twice under
+      // another key are "every other member", not the subject of this clause
+      VH_CHECK(c, count_key(got, k.key) <= 1 && (repeats || !has_dup(got)),
+               "Set produced a second member with the same key: " << show_list(got));
       bool kstrict = key_valid(k.key, false), klen = key_valid(k.key, true), vok = value_valid(v.val);
       bool present = std::any_of(m.begin(), m.end(), [&](auto &e) { return e.first == k.key; });
       List expect;
@@ -383,8 +671,16 @@ VH_TARGET(ts_ops, 3,
         {
           c.tag("set-present-key");
           c.nontrivial = true;
+          if (count_key(m, k.key) > 1)
+            c.tag("set-repeated-key");
+          if (m.size() >= 31 &&
+              std::any_of(m.begin(), m.end(), [](auto &e) { return e.first.size() >= 241 || e.second.size() == 256; }))
+            c.tag("set-present-key-at-31/32-among-boundary-members");
         }
       }
+      // a result that would still hold a repeated (other) key "violates the specification": the
+      // documented empty state is accepted there as well
+      bool still_repeats = has_dup(expect);
       if (!klen || !vok)
       {
         c.nontrivial = true;
@@ -394,44 +690,61 @@ VH_TARGET(ts_ops, 3,
       else if (!kstrict)
       {
         // digit-initial key: level 1 forbids, the header documents it as allowed -> either
-        VH_CHECK(c, got.empty() || got == expect, "Set(digit-initial key) gave neither the empty state "
-                                                  "nor the updated list: "
-                                                      << show_list(got) << " expected " << show_list(expect));
+        VH_CHECK(c, got.empty() || same_modulo_repeats(got, expect),
+                 "Set(digit-initial key) gave neither the empty state "
+                 "nor the updated list: "
+                     << show_list(got) << " expected " << show_list(expect));
       }
       else
       {
-        VH_CHECK(c, got == expect, "Set(" << vh::show(k.key.substr(0, 40)) << ") on " << show_list(m)
-                                          << " gave " << show_list(got) << " expected "
-                                          << show_list(expect));
+        VH_CHECK(c, same_modulo_repeats(got, expect) || (still_repeats && got.empty()),
+                 "Set(" << vh::show(k.key.substr(0, 40)) << ") on " << show_list(m) << " gave " << show_list(got)
+                        << " expected " << show_list(expect));
       }
       history.emplace_back(res, got);
     }
     else if (kind == 1)
     {
       GenKey k = gen_key(rd);
+      bool alias_key = false;
+      size_t key_at  = 0;
       if (!m.empty() && rd.chance(60))
       {
-        k.key = m[rd.below(static_cast<uint32_t>(m.size()))].first;
-        k.cls = "present";
+        key_at = pick_present(m);
+        k.key  = m[key_at].first;
+        k.cls  = "present";
+        alias_key = rd.chance(20);
       }
       std::string kbuf = k.key + "#";
-      auto res         = recv->Delete(nostd::string_view(kbuf.data(), k.key.size()));
+      nostd::string_view kview(kbuf.data(), k.key.size());
+      std::vector<View> own = views_of(*recv);
+      if (alias_key && own.size() == m.size())
+      {
+        kview = own[key_at].first;
+        c.tag("del-key-aliases-receiver");
+      }
+      auto res = recv->Delete(kview);
       std::fill(kbuf.begin(), kbuf.end(), '\xdd');
-      c.note("Delete#" + std::to_string(ri) + "(" + vh::show(k.key.substr(0, 24)) + "[" + k.cls + "])\n");
+      c.note("Delete#" + std::to_string(ri) + "(" + vh::show(k.key.substr(0, 24)) + "[" + k.cls +
+             (alias_key ? ",alias" : "") + "])\n");
       c.tag(std::string("del-key-") + k.cls);
+      if (count_key(m, k.key) > 1)
+        c.tag("del-repeated-key");
       List got = entries(*res);
       check_wellformed(c, got, "result of Delete");
+      VH_CHECK(c, count_key(got, k.key) == 0, "Delete(" << vh::show(k.key.substr(0, 40)) << ") on " << show_list(m)
+                                                        << " left a member with that key: " << show_list(got));
       List expect;
       for (auto &e : m)
         if (e.first != k.key)
           expect.push_back(e);
       if (key_valid(k.key, true))
-        VH_CHECK(c, got == expect, "Delete(" << vh::show(k.key.substr(0, 40)) << ") on " << show_list(m)
-                                             << " gave " << show_list(got));
+        VH_CHECK(c, same_modulo_repeats(got, expect), "Delete(" << vh::show(k.key.substr(0, 40)) << ") on "
+                                                                << show_list(m) << " gave " << show_list(got));
       else
         // an invalid key cannot be present: "removes exactly that key" (unchanged) and the
         // documented "empty state on invalid key" are both accepted
-        VH_CHECK(c, got == expect || got.empty(), "Delete(invalid key) gave " << show_list(got));
+        VH_CHECK(c, same_modulo_repeats(got, expect) || got.empty(), "Delete(invalid key) gave " << show_list(got));
       history.emplace_back(res, got);
     }
     else
@@ -439,7 +752,7 @@ VH_TARGET(ts_ops, 3,
       GenKey k = gen_key(rd);
       if (!m.empty() && rd.chance(60))
       {
-        k.key = m[rd.below(static_cast<uint32_t>(m.size()))].first;
+        k.key = m[pick_present(m)].first;
         k.cls = "present";
       }
       std::string out  = "sentinel";
@@ -450,8 +763,16 @@ VH_TARGET(ts_ops, 3,
       VH_CHECK(c, found == (it != m.end()), "Get(" << vh::show(k.key.substr(0, 40)) << ") returned "
                                                    << found << " on " << show_list(m));
       if (found)
-        VH_CHECK(c, out == it->second, "Get(" << k.key << ") = '" << vh::show(out) << "' expected '"
-                                              << vh::show(it->second) << "'");
+      {
+        // a key the receiver holds twice (parsed that way): any of its values
+        bool one_of = false;
+        for (auto &e : m)
+          one_of = one_of || (e.first == k.key && e.second == out);
+        if (count_key(m, k.key) > 1)
+          c.tag("get-repeated-key");
+        VH_CHECK(c, one_of, "Get(" << k.key << ") = '" << vh::show(out) << "' expected '" << vh::show(it->second)
+                                   << "'");
+      }
     }
     if (near_limit)
     {
@@ -529,7 +850,13 @@ RefParse ref_parse(const std::string &h, bool (*sp)(unsigned char))
     i = e + 1;
   }
   if (r.list.size() > 32)
-    r.reject = true;
+  {
+    // over-long - unless the parser folds repeated keys before it counts (32 or fewer KEYS): gray
+    if (!r.reject && dup_candidates(r.list)[1].size() <= 32)
+      r.gray = true;
+    else
+      r.reject = true;
+  }
   else if (r.tokens > 32)
     r.gray = true;  // do empty members count towards the 32? the spec does not say
   if (has_dup(r.list))
@@ -539,32 +866,48 @@ RefParse ref_parse(const std::string &h, bool (*sp)(unsigned char))
 
 void check_header(vh::Case &c, const std::string &h)
 {
+  RefParse a = ref_parse(h, is_cspace), b = ref_parse(h, is_ows);
+  if (avoid_noregex_key())
+    for (const RefParse *r : {&a, &b})
+      for (auto &kv : r->list)
+        if (noregex_key_shape(kv.first))
+        {
+          // held back / open finding: the input is not executed (byte-level inputs cannot be re-shaped)
+          vh::count_excluded(kNoRegexKey);
+          c.tag("hdr-skipped(noregex-key)");
+          c.nontrivial = false;
+          return;
+        }
   // the header is handed over as a non NUL-terminated view into a larger buffer
   std::string buf = "\x01" + h + "\x01,zz=1";
   auto ts         = trace::TraceState::FromHeader(nostd::string_view(buf.data() + 1, h.size()));
   List got        = entries(*ts);
   check_wellformed(c, got, "result of FromHeader");
-  RefParse a = ref_parse(h, is_cspace), b = ref_parse(h, is_ows);
   bool ok = false;
-  // accepted outcomes: what either trimming rule prescribes; in the gray regions also the empty state
+  // accepted outcomes: what either trimming rule prescribes (with repeated keys: every member kept,
+  // first-wins, last-wins or updated in place - never a partial list); in the gray regions also the
+  // empty state
   for (const RefParse *r : {&a, &b})
   {
     if (r->reject)
       ok = ok || got.empty();
     else
-      ok = ok || got == r->list || (r->gray && got.empty());
+      ok = ok || same_modulo_repeats(got, r->list) || (r->gray && got.empty());
   }
-  if (has_dup(a.list) || has_dup(b.list))
-    ok = true;  // only well-formedness is asserted for repeated keys
   VH_CHECK(c, ok, "FromHeader('" << vh::show(h.substr(0, 300)) << "') gave " << show_list(got)
                                  << "; reference: " << (a.reject ? "reject" : show_list(a.list))
                                  << (a.gray ? " (gray)" : ""));
-  // round trip of whatever was produced
-  if (!has_dup(got))
+  // round trip of whatever was produced (repeated keys included: a parser that keeps them keeps them again)
   {
     auto back = trace::TraceState::FromHeader(ts->ToHeader());
     VH_CHECK(c, entries(*back) == got, "round trip of parsed " << show_list(got) << " gave "
                                                               << show_list(entries(*back)));
+  }
+  if (has_dup(a.list))
+  {
+    c.tag("hdr-repeated-key");
+    if (!a.reject && !got.empty())
+      c.tag(has_dup(got) ? "hdr-repeated-key-kept" : "hdr-repeated-key-folded");
   }
   if (!a.reject && !a.list.empty())
     c.tag("hdr-accepted");
@@ -577,7 +920,7 @@ void check_header(vh::Case &c, const std::string &h)
 }
 }  // namespace
 
-VH_TARGET(ts_header, 5,
+C14_TARGET(ts_header, 5,
           "a header is non-trivial when it has at least one structural oddity (blank padding, empty "
           "member, missing '=', invalid member, repeated key, 31+ members); distinct = distinct "
           "header text")
@@ -682,7 +1025,7 @@ VH_TARGET(ts_header, 5,
   check_header(c, h);
 }
 
-VH_TARGET(ts_bytes, 2,
+C14_TARGET(ts_bytes, 2,
           "arbitrary header bytes; non-trivial when the reference parser finds at least one "
           "well-formed key=value member (the input is near the grammar); distinct = distinct byte "
           "string")
